@@ -47,7 +47,8 @@ ParmIn == {In("rnd", 24, 4, 0), In("run", 12, 0, 0), In("ramp", 7, 3, 1)}
 
 C15Cases ==
   IF Tier = "quick"
-  THEN      Cross(Pipes1(Kinds) \cup Pipes2(Kinds) \cup Pipes3(Kinds), CoreIn)
+  THEN      Cross(Pipes1(Kinds) \cup Pipes2(Kinds), CoreIn)
+       \cup Cross(Pipes3(Kinds), {In("empty", 0, 0, 0), In("run", 128, 0, 0), In("rnd", 9, 1, 0)})
        \cup Cross(Pipes1(Kinds \cup {Plain("LZW")}), BoundaryIn)
        \cup Cross(Pipes1({Plain("LZW"), LZW(0), LZW(1)}), LzwIn(4))
        \cup Cross(Pipes1(WithParms("Fl", {-1}, PredAll, ParmFew) \cup WithParms("LZW", {1}, PredAll, ParmFew)), ParmIn)
@@ -72,13 +73,14 @@ PredStages(parms) == WithParms("Fl", {-1}, Predictors \ {1}, parms)
 
 C16Cases ==
   IF Tier = "quick"
-  THEN      Cross(Pipes1(Kinds) \cup Pipes2(Kinds), TinyIn)
-       \cup Cross(Pipes3(Kinds), {In("rnd", 4, 7, 0)})
-       \cup Cross(Pipes1(PredStages({<<-1, -1, -1>>, <<1, 8, 5>>, <<3, 8, 2>>, <<2, 16, 1>>, <<1, 1, 7>>})), RowsIn(0..3))
+  THEN      Cross(Pipes1(Kinds), TinyIn)
+       \cup Cross(Pipes2(Kinds), {In("empty", 0, 0, 0), In("rnd", 5, 5, 0)})
+       \cup Cross(Pipes3({Plain("A85"), Plain("RL"), Plain("Fl"), LZW(1)}), {In("rnd", 4, 7, 0)})
+       \cup Cross(Pipes1(PredStages({<<-1, -1, -1>>, <<1, 8, 4>>, <<2, 16, 1>>, <<1, 1, 7>>})), RowsIn(0..2))
        \cup Cross({<<k, s>> : k \in {Plain("A85"), Plain("RL")}, s \in PredStages({<<1, 8, 4>>})}, RowsIn({1, 2}))
   ELSE      Cross(Pipes1(Kinds) \cup Pipes2(Kinds), TinyIn \cup MoreIn)
        \cup Cross(Pipes3(Kinds), {In("rnd", 4, 7, 0), In("run", 7, 9, 0), In("empty", 0, 0, 0)})
-       \cup Cross(Pipes1(PredStages(ParmFew \cup {<<1, 8, 1>>, <<1, 8, 2>>, <<2, 8, 4>>, <<4, 8, 2>>, <<1, 4, 5>>, <<3, 2, 3>>, <<1, 16, 4>>})), RowsIn(0..3))
+       \cup Cross(Pipes1(PredStages(ParmFew \cup ({1, 3} \X BpcValues \X {1, 2, 5}) \cup {<<2, 8, 4>>, <<4, 8, 2>>, <<1, 16, 4>>})), RowsIn(0..3))
        \cup Cross({<<k, s>> : k \in Kinds, s \in PredStages({<<1, 8, 4>>, <<2, 8, 3>>})}, RowsIn({0, 1, 2}))
        \cup Cross({<<k, j, s>> : k \in SimpleKinds, j \in {Plain("Fl"), LZW(1)}, s \in PredStages({<<1, 8, 4>>})}, RowsIn({1, 2}))
 
